@@ -125,7 +125,8 @@ def main(mod, argv=None):
     for r in results:
         for k, v in (r.get('controls') or {}).items():
             controls[k] = controls.get(k, 0) + v
-    samples = [r['sample'] for r in results if r.get('sample')][:5]
+    with_s = [r['sample'] for r in results if r.get('sample')]
+    samples = [with_s[i] for i in sorted({0, len(with_s) // 4, len(with_s) // 2, (3 * len(with_s)) // 4, len(with_s) - 1})] if with_s else []
 
     # ---- counterexamples: dedupe by tag, replay, match known findings ----
     known = _load_known()
